@@ -5,3 +5,7 @@ tier=${1:-quick}
 for p in $(python3 -c "import json; print(' '.join(c['property_id'] for c in json.load(open('MANIFEST.json'))['checks']))"); do
   /usr/bin/time -f "$p %es" ./check $p --tier $tier 2>&1 | grep -v "^  \|^KNOWN-FINDING" | tail -2
 done
+# specification growth beyond the listed properties (harness/props/ext_*.py; not in MANIFEST.checks)
+for p in EXT_LOGGING; do
+  /usr/bin/time -f "$p %es" ./check $p --tier $tier 2>&1 | grep -v "^  \|^KNOWN-FINDING" | tail -2
+done
